@@ -214,6 +214,28 @@ def run(ctx):
             Pd = [tuple(x / w for x in q) for q, w in zip(pts_canon(num.ctrlpoints), Wd)]
             run_case(ctx, ser(dict(kind="remove", U=U1, P=Pd, W=Wd, mode="generic", nodes=[kx], tol=rng.choice(["default", F(1, 1000)]))))
             continue
+        if i % 9 == 5:
+            # a break (interior knot of multiplicity degree+1) at which the two pieces meet in one control point: the point set is
+            # continuous there, the homogeneous curve only if the two weights agree as well.  Polynomial / equal weights: one copy is
+            # exactly removable; different weights: it is not (the weight function jumps)
+            p_ = rng.randint(1, 3)
+            iv = rand_interval(rng)
+            kx = iv[0] + (iv[1] - iv[0]) * rng.choice(GRID)
+            extra = [iv[0] + (kx - iv[0]) * F(1, 2)] if rng.random() < 0.3 else []
+            Ub = [iv[0]] * (p_ + 1) + extra + [kx] * (p_ + 1) + [iv[1]] * (p_ + 1)
+            nb_ = len(Ub) - p_ - 1
+            jb = p_ + len(extra)                       # last control point of the left piece
+            Pb = rand_points(rng, nb_, rng.choice([1, 2]))
+            Pb[jb + 1] = Pb[jb]
+            kindw = rng.choice(["none", "equal", "different", "different"])
+            Wb = None if kindw == "none" else [F(rng.randint(1, 9), rng.randint(1, 3)) for _ in range(nb_)]
+            if kindw == "equal":
+                Wb[jb + 1] = Wb[jb]
+            if kindw == "different" and Wb[jb + 1] == Wb[jb]:
+                Wb[jb + 1] = Wb[jb] + F(1, 2)
+            ctx["rec"].count("family", "break-with-coincident-points/" + kindw)
+            run_case(ctx, ser(dict(kind="remove", U=Ub, P=Pb, W=Wb, mode="generic", nodes=[kx], tol=rng.choice(["default", "default", F(1, 1000)]))))
+            continue
         if mode == "roundtrip":
             nodes = c04.gen_nodes(rng, U, valid=True)
             if not nodes:
